@@ -69,6 +69,15 @@ def cases(draw, tier):
     distinct = draw(st.booleans())
     spec = draw(gen.table_specs(tier, values=kind, distinct=distinct,
                                 md=True, history=True))
+    for mk in ("obs_md", "samp_md"):
+        if spec[mk] is not None and draw(st.integers(0, 3)) == 0:
+            # only some IDs carry a record (the others hold an empty one)
+            keep = draw(st.integers(0, len(spec[mk]) - 1))
+            spec[mk] = [m if k == keep else {}
+                        for k, m in enumerate(spec[mk])]
+            spec["history"] = [o for o in spec["history"]
+                               if o["op"] in ("sort", "data", "transpose",
+                                              "nnz", "copy")]
     pre = draw(st.sampled_from(["none", "sort_s", "sort_s", "sort_o", "data_s",
                                 "data_o"]))
     if pre.startswith("sort"):
@@ -339,6 +348,21 @@ def _expect(r, t, exp, inplace, before, what):
     if msg:
         raise Violation("filter-result", msg + " ; table before: %r" %
                         (before,))
+    # every kept ID has the very record it had: an axis without metadata
+    # stays without, an empty record stays an empty record
+    for key, mk in (("obs", "obs_md"), ("samp", "samp_md")):
+        if not snap[key] or snap[key] != (exp.obs if key == "obs"
+                                          else exp.samp):
+            continue
+        if before[mk] is None:
+            want = None
+        else:
+            rec_of = dict(zip(before[key], before[mk]))
+            want = [rec_of[i] for i in snap[key]]
+        if not observe.same_data(snap[mk], want):
+            raise Violation("filter-metadata", "%s: %s metadata of the kept "
+                            "IDs %r is %r, they had %r" %
+                            (what, key, snap[key], snap[mk], want))
     if exp.obs and exp.samp:
         if snap["shape"] != [len(exp.obs), len(exp.samp)]:
             raise Violation("filter-shape", "%s shape %r" % (what,
